@@ -110,6 +110,17 @@ def run_history(chk, uni, drv, rng, length, stats):
                     op = {"op": "deactivate", "p": p, "exc": rng.random() < 0.3}
             elif r < 0.58:
                 op = {"op": "attach", "p": p, "stage": run.nstages[p]}
+            elif r < 0.64:
+                # not an operation of the model: a call of OTHER functions left by an exception of a handler
+                op = {"op": "storm", "x": rng.randrange(0, 5)}
+                out = run.step(op)
+                chk.dist("storm")
+                if out != {"raised": True, "seen": 1, "context_same": True}:
+                    chk.violation("oracle", "a call left by an exception of a total handler (with a nested selector "
+                                  "active on the same functions): %r — expected the exception, one event, and the "
+                                  "handler context exactly as before" % (out,),
+                                  {"probes": probe_sels, "history": hist + [op]})
+                continue
             else:
                 op = {"op": "call", "f": rng.randrange(2), "x": rng.randrange(0, 5)}
             out = run.step(op)
@@ -221,7 +232,8 @@ def run(chk):
         "histories of 8-24 operations over 1-3 probes (1-2 selectors each from 10 overlapping selectors on 2 "
         "functions, 12% with a selector that verification refuses): activate (incl. repeated attempts), "
         "deactivate in ANY order (30% as if the with-block was left by an exception; now and then a second time: "
-        "refused, nothing changes), attach a stage, call; "
+        "refused, nothing changes), attach a stage, call, and (outside the model) a call of other functions that a "
+        "raising handler leaves by an exception while a nested selector is active; "
         "the implementation is observed after every step. non-trivial = at least two activations and a call")
     stats = {"histories": 0, "steps": 0, "disagreements": 0}
     n = 250 if chk.tier == "quick" else 5000
